@@ -127,8 +127,11 @@ def minimise(check, trace, key, max_replays=300, max_wall=120):
     t0 = time.monotonic()
     n = [0]
 
+    exhausted = [False]
+
     def fails(tr):
         if n[0] >= max_replays or time.monotonic() - t0 > max_wall:
+            exhausted[0] = True
             return False
         n[0] += 1
         try:
@@ -140,7 +143,7 @@ def minimise(check, trace, key, max_replays=300, max_wall=120):
     cur = copy.deepcopy(trace)
     changed = True
     rounds = 0
-    while changed and rounds < 4:
+    while changed and rounds < 4 and not exhausted[0]:
         changed = False
         rounds += 1
         for field in check.shrink_fields(cur):
@@ -155,10 +158,15 @@ def minimise(check, trace, key, max_replays=300, max_wall=120):
                 changed = True
                 continue
             gran = 2
-            while len(items) >= 2 and gran <= len(items) * 2:
-                chunk = max(1, len(items) // gran)
+            # very long lists (recorded context switches of a run that spun up to its step budget) are
+            # only thinned down to chunks of 1/128 of their length: each candidate costs a full replay
+            min_chunk = max(1, len(items) // 128) if len(items) > 2000 else 1
+            while len(items) >= 2 and gran <= len(items) * 2 and not exhausted[0]:
+                chunk = max(min_chunk, len(items) // gran)
                 reduced = False
                 for start in range(0, len(items), chunk):
+                    if exhausted[0]:
+                        break
                     sub = items[:start] + items[start + chunk:]
                     if not sub and field == 'ops':
                         continue
@@ -172,10 +180,12 @@ def minimise(check, trace, key, max_replays=300, max_wall=120):
                         gran = max(2, gran - 1)
                         break
                 if not reduced:
-                    if chunk == 1:
+                    if chunk <= min_chunk:
                         break
                     gran = min(len(items), gran * 2)
         for cand in check.simplify(cur):
+            if exhausted[0]:
+                break
             if fails(cand):
                 cur = cand
                 changed = True
